@@ -106,6 +106,8 @@ def parse_sidecar(path):
                 cur.tags = rest.split()
             elif kw == 'attr':
                 cur.attrs.append(rest)
+            elif kw == 'assume_body':
+                cur.trusted = True
             elif kw == 'use':
                 cur.use_contract = rest
             elif kw == 'requires':
@@ -125,8 +127,9 @@ def parse_sidecar(path):
                 where = rest.split()[0]
                 anchor, tail = qstr(rest)
                 toks = tail.split()
+                nm = [t_[5:] for t_ in toks if t_.startswith('name=')]
                 h = dict(where=where, anchor=anchor, ord=int(toks[0]) if toks and toks[0].lstrip('-').isdigit() else 0,
-                         lines=[], optional='optional' in toks, raw='raw' in toks)
+                         lines=[], optional='optional' in toks, raw='raw' in toks, exact='exact' in toks, name=nm[0] if nm else None, tags=parse_tags(tail))
                 cur.hints.append(h)
                 sink = h['lines']
             elif kw == 'replace':
@@ -134,6 +137,11 @@ def parse_sidecar(path):
                 new, tail2 = qstr(tail)
                 toks = tail2.split()
                 cur.replaces.append(dict(old=old, new=new, count=int(toks[0]) if toks else 1))
+            elif kw == 'rereplace':
+                old, tail = qstr(rest)
+                new, tail2 = qstr(tail)
+                toks = tail2.split()
+                cur.replaces.append(dict(old=old, new=new, count=int(toks[0]) if toks else 1, regex=True))
             elif kw == 'sigreplace':
                 old, tail = qstr(rest)
                 new, _ = qstr(tail)
@@ -158,6 +166,9 @@ def parse_sidecar(path):
                 ent = ('lens%d' % len(lp['ensures']), parse_tags(rest), [])
                 lp['ensures'].append(ent)
                 sink = ent[2]
+            elif kw == 'attr':
+                lp.setdefault('attrs', []).append(rest)
+                sink = None
             else:
                 raise ValueError('%s:%d: unknown loop directive %r' % (path, i, line))
             continue
@@ -243,7 +254,9 @@ def generic_rewrites(t, fname):
         semi = t.index(';', e)
         body = t[j:e]
         body = re.sub(r"break " + label + r"\s+([^;]+);", lambda mm: "{ %s = %s; break %s; }" % (var, mm.group(1), label), body)
-        t = t[:m.start()] + "let %s%s; %s: loop " % (var, ty, label) + body + t[semi + 1:]
+        ls = t.rfind('\n', 0, m.start()) + 1
+        ind = re.match(r'[ \t]*', t[ls:]).group(0)
+        t = t[:m.start()] + "let %s%s;\n%s%s: loop " % (var, ty, ind, label) + body + t[semi + 1:]
         k += 1
     rule('R7', fname, k)
     return t
@@ -320,7 +333,12 @@ def inject(spec, text, contract, warnings):
         if '->' in sig:
             sig = re.sub(r'->\s*(.+)$', lambda m: '-> (%s: %s)' % (ret, m.group(1).strip()), sig, flags=re.S)
     base = dict(fn=fnm, kind='body', name='', tags=spec.tags)
+    if spec.trusted:
+        # contract stated, body NOT verified (listed as trusted in the evidence until its proof is in place)
+        out.add('#[verifier::external_body]', base)
     for a in spec.attrs + [a for a in contract.attrs if a not in spec.attrs]:
+        if spec.trusted and ('loop_isolation' in a or 'allow_complex' in a or 'rlimit' in a):
+            continue
         out.add(a, base)
     if head.strip():
         out.add(head.rstrip('\n'), base)
@@ -339,12 +357,19 @@ def inject(spec, text, contract, warnings):
             meta = dict(fn=fnm, kind='ensures', name=name, tags=tags if tags is not None else spec.tags)
             for l in lines:
                 out.add('        ' + l, meta)
+    if spec.trusted:
+        for l in body.split('\n'):
+            out.lines.append((l, base))
+        return out
     # ---- body: function-specific replaces, then loops, then hints (line based)
     for r in spec.replaces:
-        n = body.count(r['old'])
+        if r.get('regex'):
+            n = len(re.findall(r['old'], body, re.S))
+        else:
+            n = body.count(r['old'])
         if n != r['count']:
             raise AnchorLost('%s: replace anchor %r found %d times, expected %d' % (fnm, r['old'], n, r['count']))
-        body = body.replace(r['old'], r['new'])
+        body = re.sub(r['old'], lambda m_: r['new'], body, flags=re.S) if r.get('regex') else body.replace(r['old'], r['new'])
     blines = [(l, base) for l in body.split('\n')]
     # loops
     seen = {}
@@ -365,6 +390,8 @@ def inject(spec, text, contract, warnings):
                 warnings.append('%s: loop %r #%d has no sidecar entry' % (fnm, sig_l, k))
                 newl.append((l, m))
                 continue
+            for a_ in lp.get('attrs', []):
+                newl.append((mm.group(1) + a_, m))
             newl.append((mm.group(1) + mm.group(2), m))
             if lp['inv_eb']:
                 newl.append((mm.group(1) + '    invariant_except_break', dict(base, kind='invariant', name='loop %s#%d' % (sig_l, k))))
@@ -396,7 +423,7 @@ def inject(spec, text, contract, warnings):
     blines = newl
     # hints
     for h in spec.hints:
-        hits = [i for i, (l, m) in enumerate(blines) if h['anchor'] in l and m.get('kind') == 'body']
+        hits = [i for i, (l, m) in enumerate(blines) if (l.strip() == h['anchor'] if h.get('exact') else h['anchor'] in l) and m.get('kind') == 'body']
         k = h['ord']
         if k >= len(hits) or (k < 0 and -k > len(hits)):
             msg = '%s: hint anchor %r #%d not found (%d hits)' % (fnm, h['anchor'], k, len(hits))
@@ -405,6 +432,8 @@ def inject(spec, text, contract, warnings):
         at = hits[k]
         ind = re.match(r'\s*', blines[at][0]).group(0)
         meta = dict(fn=fnm, kind='hint', name='hint@%s#%d' % (h['anchor'], k), tags=spec.tags)
+        if h.get('name'):
+            meta = dict(fn=fnm, kind='assert', name=h['name'], tags=h['tags'] if h.get('tags') is not None else spec.tags)
         if h['raw']:
             ins = [(ind + x, meta) for x in h['lines']]
         else:
